@@ -129,7 +129,8 @@ def check_sig_list(rep, prog):
     rule = "C20.R2.call-sites"
     I = Interpreter(prog, hooks={"opaque": {PD + ".get_signature", PD + ".__init__"}})
     r = I.call(UD + "_parse_signature_list", [Const(1), DATA])
-    loops = [L for L in I.loops.values() if L.func == UD + "_parse_signature_list"]
+    cs0 = [e for e in I.events if e.kind == "opaquecall" and e.data[0] == PD + ".get_signature"]
+    loops = list(cs0[0].loops[-1:]) if cs0 and cs0[0].loops else []
     cs = [e for e in I.events if e.kind == "opaquecall" and e.data[0] == PD + ".get_signature"]
     ok = len(loops) == 1 and len(cs) == 1 and cs[0].loops and cs[0].loops[-1] is loops[0]
     if ok:
@@ -140,7 +141,7 @@ def check_sig_list(rep, prog):
         got = tuple(cs[0].data[1])
         idxk = [k for k in L.carried if k.endswith(".index")]
         okd = bool(idxk) and L.carried[idxk[0]][2] == Const(12) and L.carried[idxk[0]][0] == Const(4)
-        apps = [e for e in I.events[L.events[0]:L.events[1]] if e.kind == "append"]
+        apps = [e for e in I.events[L.events[0]:L.events[1]] if e.kind == "append" and not pelx.is_temp(I, e.data[0])]
         ok = okt and got == want and okd and len(apps) == 1 and apps[0].data[1] == Op("call:" + PD + ".get_signature", *got)
     rep.check(ok, rule, "signature list: 32-bit count, then per signature three consecutive 4-byte words a, b, c (hex), one entry each, in order",
               UD + "_parse_signature_list", "parser.get_signature(a, b, c)", "the signature list is not decoded as count + 12-byte signatures (a,b,c in order)")
@@ -189,7 +190,7 @@ def check_register_dump(rep, prog):
     # output lines
     dump = None
     for e in I.events:
-        if e.kind == "append" and e.loops and e.loops[-1] is Lc and e.func == where:
+        if e.kind == "append" and e.loops and e.loops[-1] is Lc and not pelx.is_temp(I, e.data[0]):
             dump = e.data[0]
     items = list_items(I, dump) if dump is not None else None
     if items is None:
@@ -233,7 +234,7 @@ def check_register_dump(rep, prog):
               "all of its data bytes (%s)" % detail)
     # no state carried from chip to chip / register to register other than the stream and the output
     carried = [k for L in (Lc, Lr) for k in L.carried if "." not in k and not k.startswith("DataStream")]
-    stores = [e for e in I.events if e.kind in ("dict_store", "dictmut") and e.func == where and e.loops]
+    stores = [e for e in I.events if e.kind in ("dict_store", "dictmut") and e.loops and Lc in e.loops]
     rep.check(not stores, rule, "no lookup results are cached across chips/registers", where, stores[0].node if stores else "loop body",
               "register names/addresses are cached across chips (%s): a later chip of a different model shows an earlier chip's register data" % (
                   "dictionary filled inside the loops"), node=stores[0].node if stores else None)
